@@ -130,6 +130,32 @@ def finish(ctx, explanation, level='other'):
     return 1 if (new or ctx.broken) else 0
 
 
+def other_configurations(ctx):
+    """thorough tier of the table properties: the property's own rules on every other feature configuration"""
+    import importlib, json
+    from . import load
+    from .rules import c20
+    known = c20.known_keys()
+    fp = os.path.join(VERIF, 'tables', 'c20_floors.json')
+    floors = json.load(open(fp)) if os.path.exists(fp) else {}
+    mod = importlib.import_module('mcv.rules.' + ctx.pid.lower())
+    ctx.rules_run.append('(thorough) the rules above on configurations none / half / alloc / std of minicbor (+ minicbor-serde where the rule uses it)')
+    for core, serde in c20.THOROUGH:
+        if ctx.pid == 'C02' and not serde:
+            continue
+        label = core.replace('core-', '')
+        load.ALIAS = {'core-full': core}
+        if serde:
+            load.ALIAS['serde-full'] = serde
+        c20.reset_caches()
+        try:
+            sub = c20.SubCtx(ctx, label, ctx.pid, known, floors)
+            mod.run(sub)
+        finally:
+            load.ALIAS = {}
+            c20.reset_caches()
+
+
 def main(argv):
     import argparse
     ap = argparse.ArgumentParser()
@@ -146,6 +172,9 @@ def main(argv):
     ctx = Ctx(a.pid, a.tier if a.tier in ('quick', 'thorough') else 'quick', seed)
     try:
         expl = rules.run(ctx)
+        if ctx.tier == 'thorough' and ctx.pid in ('C01', 'C02', 'C03', 'C04', 'C05', 'C12', 'C13'):
+            expl += ' Thorough tier: the same rules re-run on the MIR of the other feature configurations (none, half, alloc, std).'
+            other_configurations(ctx)
     except Exception as e:  # fail closed, with the reason
         from .export import ExportError
         if isinstance(e, ExportError):
